@@ -223,9 +223,10 @@ type PoolProg struct {
 	UdCalls  int    `json:"udCalls"`
 	G        int    `json:"goroutines"`
 	Iter     int    `json:"iterations"`
-	Flaps    int    `json:"flaps"`    // state flaps injected by the callback goroutine
-	Resolves int    `json:"resolves"` // resolver updates injected by the callback goroutine
-	Hold     int    `json:"hold"`     // how many calls a goroutine keeps open
+	Flaps    int    `json:"flaps"`       // state flaps injected by the callback goroutine
+	Resolves int    `json:"resolves"`    // resolver updates injected by the callback goroutine
+	Hold     int    `json:"hold"`        // how many calls a goroutine keeps open
+	DEPct    int    `json:"deadlinePct"` // share of calls that end with a client-side deadline error (0 = one third)
 	Seed     uint64 `json:"seed"`
 	Pert     int    `json:"perturbation"`
 	Failure  string `json:"failure,omitempty"`
@@ -408,7 +409,7 @@ func RunPool(p *PoolProg) (violation string, st Stats) {
 				var cancel context.CancelFunc
 				var derr error
 				switch {
-				case p.UdMs > 0 && r>>16%3 == 0:
+				case p.UdMs > 0 && ((p.DEPct == 0 && r>>16%3 == 0) || (p.DEPct > 0 && int(r>>16%100) < p.DEPct)):
 					ctx, cancel = context.WithDeadline(base, time.Now().Add(-time.Second)) // already expired: a client-side deadline call
 					derr = deErr
 				case method == "/bind" && p.RR:
